@@ -291,6 +291,13 @@ impl FunctionSignature {
                     project.get_pointer_bytesize(),
                 );
                 self.parameters.remove(&return_addr_location);
+                // Parameters nested below the return address would be left without a parent parameter.
+                let pointer_size = project.get_pointer_bytesize();
+                self.parameters.retain(|param, _| {
+                    !param
+                        .get_all_parent_locations(pointer_size)
+                        .contains(&return_addr_location)
+                });
             }
             _ => (),
         }
